@@ -193,25 +193,39 @@ def helper_case(chk, drv, cname, obj, snap, bound, bname):
 
 
 # =====================================================================================  part B: estimators
-def gen_data(rng):
+def gen_data(rng, extreme=False, index_kind=None):
+    """extreme: a rare outcome with a strong predictor, so that fitted risks fall below 0.0005 and above 0.9995
+    (valid data; exposure and missingness models stay moderate)"""
     n = int(rng.integers(150, 320))
     L1 = rng.integers(0, 2, size=n)
     L2 = np.round(rng.normal(size=n), 3)
     ca, cb = rng.uniform(0.8, 1.6), rng.uniform(0.9, 1.8)
+    if extreme:
+        L2 = np.round(rng.normal(scale=1.6, size=n), 3)
+        ca, cb = rng.uniform(0.3, 0.8), rng.uniform(0.3, 0.6)
     pa = 1 / (1 + np.exp(-(-0.3 + ca * L1 + cb * L2)))
     A = (rng.uniform(size=n) < pa).astype(int)
-    py = 1 / (1 + np.exp(-(-0.5 + 0.8 * A + 0.5 * L1 - 0.4 * L2)))
+    if extreme:
+        py = 1 / (1 + np.exp(-(-3.0 + 0.8 * A + 0.5 * L1 + 3.5 * L2)))
+    else:
+        py = 1 / (1 + np.exp(-(-0.5 + 0.8 * A + 0.5 * L1 - 0.4 * L2)))
     Y = (rng.uniform(size=n) < py).astype(float)
-    idx = rng.permutation(n) + int(rng.integers(0, 30)) if rng.uniform() < 0.5 else np.arange(n)
+    kind = index_kind or str(rng.choice(['default', 'shuffled', 'string']))
+    if kind == 'shuffled':
+        idx = list(rng.permutation(n) + int(rng.integers(0, 30)))
+    elif kind == 'string':
+        idx = ['id%04d' % i for i in rng.permutation(n)]
+    else:
+        idx = list(range(n))
     df = pd.DataFrame({'A': A, 'L1': L1, 'L2': L2, 'Y': Y}, index=idx)
     dm = df.copy()
-    pm = 1 / (1 + np.exp(-(-1.6 + 0.9 * L2 + 0.5 * A)))
+    pm = 1 / (1 + np.exp(-(-1.6 + (0.3 if extreme else 0.9) * L2 + 0.5 * A)))
     dm.loc[rng.uniform(size=n) < pm, 'Y'] = np.nan
     ds = df.copy()
-    ps = 1 / (1 + np.exp(-(0.3 + 1.0 * L1 - 1.1 * L2)))
+    ps = 1 / (1 + np.exp(-(0.3 + 1.0 * L1 - (0.5 if extreme else 1.1) * L2)))
     ds['S'] = (rng.uniform(size=n) < ps).astype(int)
     ds.loc[ds['S'] == 0, ['A', 'Y']] = np.nan
-    return {'full': df, 'miss': dm, 'sel': ds, 'n': n}
+    return {'full': df, 'miss': dm, 'sel': ds, 'n': n, 'extreme': extreme, 'index_kind': kind}
 
 
 def pack(data):
@@ -219,7 +233,7 @@ def pack(data):
     out = {'n': data['n']}
     for k in ('full', 'miss', 'sel'):
         d = data[k]
-        out[k] = {'index': [int(i) for i in d.index], 'columns': {c: [None if (isinstance(x, float) and math.isnan(x))
+        out[k] = {'index': [i if isinstance(i, str) else int(i) for i in d.index], 'columns': {c: [None if (isinstance(x, float) and math.isnan(x))
                                                                       else float(x) for x in d[c]] for c in d.columns}}
     return out
 
@@ -273,131 +287,233 @@ class Spy:
         self.mod.aipw_calculator, self.mod.targeting_step = self.orig
 
 
-# ---- adapters: run(data, cfg, bound) -> {'p': {name: array}, 'w': {name: array}, 'est': {name: float}, 'aux': ...}
+class Hist:
+    """a history on ONE estimator object: the bound-taking method is called once per entry of `bounds` (the last
+    call is the specification that counts); with fit_between the estimator is fitted between the calls"""
+
+    def __init__(self, bounds, fit_between):
+        self.bounds = list(bounds)
+        self.fit_between = fit_between
+
+    def __repr__(self):
+        return 'Hist(%r, fit_between=%r)' % (self.bounds, self.fit_between)
+
+
+def play(bound, specify, finish):
+    if isinstance(bound, Hist):
+        for i, b in enumerate(bound.bounds):
+            specify(b)
+            if bound.fit_between and i < len(bound.bounds) - 1:
+                finish()
+        return finish()
+    specify(bound)
+    return finish()
+
+
+def with_a(df, a):
+    d = df.copy()
+    d['A'] = a
+    return d
+
+
+# ---- adapters: run(data, cfg, bound) -> {'p': {name: array}, 'w': {name: array}, 'est': {name: float},
+#      'aux': {..., 'ref': {name of p: reference GLM fitted values}}}; bound may be a Hist
 def run_iptw(data, cfg, bound):
     from zepid.causal.ipw import IPTW
     ipt = IPTW(data['full'], 'A', 'Y', standardize=cfg['std'])
-    ipt.treatment_model(FORMULA_A, model_numerator=cfg.get('num', '1'), bound=bound, stabilized=cfg['stab'],
-                        print_results=False)
-    ipt.marginal_structural_model('A')
-    ipt.fit()
-    p = {'denom': arr(ipt.df['__denom__'])}
-    if cfg['stab']:
-        p['numer'] = arr(ipt.df['__numer__'])
-    return {'p': p, 'w': {'iptw': arr(ipt.iptw)}, 'est': {'rd': float(ipt.risk_difference['RD'].iloc[1])},
-            'aux': {'a': arr(ipt.df['A']), 'numer_col': arr(ipt.df['__numer__'])}}
+
+    def specify(b):
+        ipt.treatment_model(FORMULA_A, model_numerator=cfg.get('num', '1'), bound=b, stabilized=cfg['stab'],
+                            print_results=False)
+
+    def finish():
+        ipt.marginal_structural_model('A')
+        ipt.fit()
+        p = {'denom': arr(ipt.df['__denom__'])}
+        ref = {'denom': arr(ref_glm('A ~ ' + FORMULA_A, ipt.df).predict(ipt.df))}
+        if cfg['stab']:
+            p['numer'] = arr(ipt.df['__numer__'])
+            ref['numer'] = arr(ref_glm('A ~ ' + cfg.get('num', '1'), ipt.df).predict(ipt.df))
+        return {'p': p, 'w': {'iptw': arr(ipt.iptw)}, 'est': {'rd': float(ipt.risk_difference['RD'].iloc[1])},
+                'aux': {'a': arr(ipt.df['A']), 'numer_col': arr(ipt.df['__numer__']), 'ref': ref}}
+    return play(bound, specify, finish)
 
 
 def run_iptw_miss(data, cfg, bound):
     from zepid.causal.ipw import IPTW
     ipt = IPTW(data['miss'], 'A', 'Y')
     ipt.treatment_model(FORMULA_A, print_results=False)
-    ipt.missing_model(FORMULA_M, bound=bound, stabilized=cfg['stab'], print_results=False)
-    ipt.marginal_structural_model('A')
-    ipt.fit()
-    d = arr(ref_glm('__missing_indicator__ ~ ' + FORMULA_M, ipt.df).predict(ipt.df))
-    n = arr(ref_glm('__missing_indicator__ ~ A', ipt.df).predict(ipt.df)) if cfg['stab'] else np.ones(len(d))
-    return {'p': {}, 'w': {'ipmw': arr(ipt.ipmw)}, 'est': {'rd': float(ipt.risk_difference['RD'].iloc[1])},
-            'aux': {'d_ref': d, 'n_ref': n, 'obs': arr(ipt.df['__missing_indicator__']) == 1}}
+
+    def specify(b):
+        ipt.missing_model(FORMULA_M, bound=b, stabilized=cfg['stab'], print_results=False)
+
+    def finish():
+        ipt.marginal_structural_model('A')
+        ipt.fit()
+        d = arr(ref_glm('__missing_indicator__ ~ ' + FORMULA_M, ipt.df).predict(ipt.df))
+        n = arr(ref_glm('__missing_indicator__ ~ A', ipt.df).predict(ipt.df)) if cfg['stab'] else np.ones(len(d))
+        return {'p': {}, 'w': {'ipmw': arr(ipt.ipmw)}, 'est': {'rd': float(ipt.risk_difference['RD'].iloc[1])},
+                'aux': {'d_ref': d, 'n_ref': n, 'obs': arr(ipt.df['__missing_indicator__']) == 1, 'ref': {}}}
+    return play(bound, specify, finish)
 
 
 def run_snm_miss(data, cfg, bound):
     from zepid.causal.snm import GEstimationSNM
     g = GEstimationSNM(data['miss'], 'A', 'Y')
     g.exposure_model(FORMULA_A, print_results=False)
-    g.missing_model(FORMULA_M, bound=bound, stabilized=cfg['stab'], print_results=False)
-    g.structural_nested_model('A')
-    g.fit()
-    d = arr(ref_glm('__missing_indicator__ ~ ' + FORMULA_M, g.df).predict(g.df))
-    n = arr(ref_glm('__missing_indicator__ ~ A', g.df).predict(g.df)) if cfg['stab'] else np.ones(len(d))
-    return {'p': {}, 'w': {'ipmw': arr(g.ipmw)}, 'est': {'psi': float(np.asarray(g.psi).ravel()[0])},
-            'aux': {'d_ref': d, 'n_ref': n, 'obs': arr(g.df['__missing_indicator__']) == 1}}
+
+    def specify(b):
+        g.missing_model(FORMULA_M, bound=b, stabilized=cfg['stab'], print_results=False)
+
+    def finish():
+        g.structural_nested_model('A')
+        g.fit()
+        d = arr(ref_glm('__missing_indicator__ ~ ' + FORMULA_M, g.df).predict(g.df))
+        n = arr(ref_glm('__missing_indicator__ ~ A', g.df).predict(g.df)) if cfg['stab'] else np.ones(len(d))
+        return {'p': {}, 'w': {'ipmw': arr(g.ipmw)}, 'est': {'psi': float(np.asarray(g.psi).ravel()[0])},
+                'aux': {'d_ref': d, 'n_ref': n, 'obs': arr(g.df['__missing_indicator__']) == 1, 'ref': {}}}
+    return play(bound, specify, finish)
+
+
+def miss_ref(df):
+    fit = ref_glm('__missing_indicator__ ~ ' + FORMULA_M, df)
+    return arr(fit.predict(with_a(df, 1))), arr(fit.predict(with_a(df, 0)))
 
 
 def run_aiptw(data, cfg, bound):
     from zepid.causal.doublyrobust import AIPTW
     which = cfg['which']
     a = AIPTW(data['miss'] if which == 'missing' else data['full'], 'A', 'Y')
-    a.exposure_model(FORMULA_A, bound=bound if which == 'exposure' else False, print_results=False)
     if which == 'missing':
-        a.missing_model(FORMULA_M, bound=bound, print_results=False)
-    a.outcome_model(FORMULA_Y, print_results=False)
-    a.fit()
-    if which == 'exposure':
-        p = {'g1': arr(a.df['_g1_']), 'g0': arr(a.df['_g0_'])}
-    else:
-        p = {'m1': arr(a.df['_ipmw_a1_']), 'm0': arr(a.df['_ipmw_a0_'])}
-    return {'p': p, 'w': {}, 'est': {'rd': float(a.risk_difference), 'rr': float(a.risk_ratio)}, 'aux': {}}
+        a.exposure_model(FORMULA_A, print_results=False)
+
+    def specify(b):
+        if which == 'exposure':
+            a.exposure_model(FORMULA_A, bound=b, print_results=False)
+        else:
+            a.missing_model(FORMULA_M, bound=b, print_results=False)
+
+    def finish():
+        a.outcome_model(FORMULA_Y, print_results=False)
+        a.fit()
+        if which == 'exposure':
+            p = {'g1': arr(a.df['_g1_']), 'g0': arr(a.df['_g0_'])}
+            g = arr(ref_glm('A ~ ' + FORMULA_A, a.df).predict(a.df))
+            ref = {'g1': g, 'g0': 1 - g}
+        else:
+            p = {'m1': arr(a.df['_ipmw_a1_']), 'm0': arr(a.df['_ipmw_a0_'])}
+            m1, m0 = miss_ref(a.df)
+            obs = arr(a.df['__missing_indicator__']) == 1
+            ref = {'m1': np.where(obs, m1, np.nan), 'm0': np.where(obs, m0, np.nan)}
+        return {'p': p, 'w': {}, 'est': {'rd': float(a.risk_difference), 'rr': float(a.risk_ratio)},
+                'aux': {'ref': ref}}
+    return play(bound, specify, finish)
 
 
 def run_tmle(data, cfg, bound):
     from zepid.causal.doublyrobust import TMLE
     which = cfg['which']
     t = TMLE(data['miss'] if which == 'missing' else data['full'], 'A', 'Y')
-    t.exposure_model(FORMULA_A, bound=bound if which == 'exposure' else False, print_results=False)
-    if which == 'missing':
-        t.missing_model(FORMULA_M, bound=bound, print_results=False)
-    t.outcome_model(FORMULA_Y, bound=bound if which == 'outcome' else False, print_results=False)
-    t.fit()
-    if which == 'exposure':
-        p = {'g1': arr(t.g1W), 'g0': arr(t.g0W)}
-    elif which == 'missing':
-        p = {'m1': arr(t.m1W), 'm0': arr(t.m0W)}
-    else:
-        p = {'q1': arr(t.QA1W), 'q0': arr(t.QA0W)}
-    return {'p': p, 'w': {}, 'est': {'rd': float(t.risk_difference), 'rr': float(t.risk_ratio),
-                                     'or': float(t.odds_ratio)}, 'aux': {}}
+    if which != 'exposure':
+        t.exposure_model(FORMULA_A, print_results=False)
+
+    def specify(b):
+        if which == 'exposure':
+            t.exposure_model(FORMULA_A, bound=b, print_results=False)
+        elif which == 'missing':
+            t.missing_model(FORMULA_M, bound=b, print_results=False)
+        else:
+            t.outcome_model(FORMULA_Y, bound=b, print_results=False)
+
+    def finish():
+        if which != 'outcome':
+            t.outcome_model(FORMULA_Y, print_results=False)
+        t.fit()
+        if which == 'exposure':
+            p = {'g1': arr(t.g1W), 'g0': arr(t.g0W)}
+            g = arr(ref_glm('A ~ ' + FORMULA_A, t.df).predict(t.df))
+            ref = {'g1': g, 'g0': 1 - g}
+        elif which == 'missing':
+            p = {'m1': arr(t.m1W), 'm0': arr(t.m0W)}
+            m1, m0 = miss_ref(t.df)
+            ref = {'m1': m1, 'm0': m0}
+        else:
+            p = {'q1': arr(t.QA1W), 'q0': arr(t.QA0W)}
+            fit = ref_glm('Y ~ ' + FORMULA_Y, t.df.dropna())
+            ref = {'q1': arr(fit.predict(with_a(t.df, 1))), 'q0': arr(fit.predict(with_a(t.df, 0)))}
+        return {'p': p, 'w': {}, 'est': {'rd': float(t.risk_difference), 'rr': float(t.risk_ratio),
+                                         'or': float(t.odds_ratio)}, 'aux': {'ref': ref}}
+    return play(bound, specify, finish)
 
 
 def run_stmle(data, cfg, bound):
     from zepid.causal.doublyrobust import StochasticTMLE
     which = cfg['which']
     s = StochasticTMLE(data['full'], 'A', 'Y')
-    s.exposure_model(FORMULA_A, bound=bound if which == 'exposure' else False)
-    s.outcome_model(FORMULA_Y, bound=bound if which == 'outcome' else False)
-    s.fit(p=0.4, samples=8, seed=20260101)
-    if which == 'exposure':
-        p = {'den': arr(s._denominator_)}
-    else:
-        p = {'qinit': arr(s._Qinit_)}
-    pred = arr(ref_glm('A ~ ' + FORMULA_A, s.df).predict(s.df))
-    return {'p': p, 'w': {}, 'est': {'psi': float(s.marginal_outcome)},
-            'aux': {'a': arr(s.df['A']), 'pred_ref': pred, 'ntrunc': s._specified_bound_}}
+    if which == 'outcome':
+        s.exposure_model(FORMULA_A)
+
+    def specify(b):
+        if which == 'exposure':
+            s.exposure_model(FORMULA_A, bound=b)
+        else:
+            s.outcome_model(FORMULA_Y, bound=b)
+
+    def finish():
+        if which == 'exposure':
+            s.outcome_model(FORMULA_Y)
+        s.fit(p=0.4, samples=8, seed=20260101)
+        pred = arr(ref_glm('A ~ ' + FORMULA_A, s.df).predict(s.df))
+        if which == 'exposure':
+            p = {'den': arr(s._denominator_)}
+            ref = {'den': np.where(arr(s.df['A']) == 1, pred, 1 - pred)}
+        else:
+            p = {'qinit': arr(s._Qinit_)}
+            ref = {'qinit': arr(ref_glm('Y ~ ' + FORMULA_Y, s.df).predict(s.df))}
+        return {'p': p, 'w': {}, 'est': {'psi': float(s.marginal_outcome)},
+                'aux': {'a': arr(s.df['A']), 'pred_ref': pred, 'ntrunc': s._specified_bound_, 'ref': ref}}
+    return play(bound, specify, finish)
 
 
 def run_ipsw(data, cfg, bound):
     from zepid.causal.generalize import IPSW
     s = IPSW(data['sel'], 'A', 'Y', 'S', generalize=cfg['gen'])
-    s.sampling_model(FORMULA_A, bound=bound if bound else None, stabilized=cfg['stab'], print_results=False)
-    s.fit()
-    p = {'denom': arr(s.sample['__denom__'])}
-    if cfg['stab']:
-        p['numer'] = arr(s.sample['__numer__'])
-    return {'p': p, 'w': {'ipsw': arr(s.ipsw)}, 'est': {'rd': float(s.risk_difference), 'rr': float(s.risk_ratio)},
-            'aux': {'numer_col': arr(s.sample['__numer__'])}}
+
+    def specify(b):
+        s.sampling_model(FORMULA_A, bound=b if b else None, stabilized=cfg['stab'], print_results=False)
+
+    def finish():
+        s.fit()
+        p = {'denom': arr(s.sample['__denom__'])}
+        ref = {'denom': arr(ref_glm('S ~ ' + FORMULA_A, s.df).predict(s.sample))}
+        if cfg['stab']:
+            p['numer'] = arr(s.sample['__numer__'])
+            ref['numer'] = arr(ref_glm('S ~ 1', s.df).predict(s.sample))
+        return {'p': p, 'w': {'ipsw': arr(s.ipsw)}, 'est': {'rd': float(s.risk_difference), 'rr': float(s.risk_ratio)},
+                'aux': {'numer_col': arr(s.sample['__numer__']), 'ref': ref}}
+    return play(bound, specify, finish)
 
 
 def run_ipsw_trt(data, cfg, bound):
     """IPSW.treatment_model / AIPSW.treatment_model: iptw_calculator on the sample (resp. the full frame)"""
     from zepid.causal.generalize import IPSW, AIPSW
-    if cfg['cls'] == 'IPSW':
-        s = IPSW(data['sel'], 'A', 'Y', 'S')
-        s.sampling_model(FORMULA_A, print_results=False)
-        s.treatment_model(FORMULA_A, bound=bound if bound else None, stabilized=cfg['stab'], print_results=False)
+    s = (IPSW if cfg['cls'] == 'IPSW' else AIPSW)(data['sel'], 'A', 'Y', 'S')
+    s.sampling_model(FORMULA_A, print_results=False)
+
+    def specify(b):
+        s.treatment_model(FORMULA_A, bound=b if b else None, stabilized=cfg['stab'], print_results=False)
+
+    def finish():
+        if cfg['cls'] == 'AIPSW':
+            s.outcome_model(FORMULA_Y, print_results=False)
         s.fit()
-        frame = s.sample
-    else:
-        s = AIPSW(data['sel'], 'A', 'Y', 'S')
-        s.sampling_model(FORMULA_A, print_results=False)
-        s.treatment_model(FORMULA_A, bound=bound if bound else None, stabilized=cfg['stab'], print_results=False)
-        s.outcome_model(FORMULA_Y, print_results=False)
-        s.fit()
-        frame = s.df
-    d = arr(ref_glm('A ~ ' + FORMULA_A, frame).predict(frame))
-    n = arr(ref_glm('A ~ 1', frame).predict(frame)) if cfg['stab'] else np.ones(len(d))
-    a = arr(frame['A'])
-    return {'p': {}, 'w': {'iptw': arr(s.iptw)}, 'est': {'rd': float(s.risk_difference), 'rr': float(s.risk_ratio)},
-            'aux': {'d_ref': d, 'n_ref': n, 'a': a, 'obs': ~np.isnan(a)}}
+        frame = s.sample if cfg['cls'] == 'IPSW' else s.df
+        d = arr(ref_glm('A ~ ' + FORMULA_A, frame).predict(frame))
+        n = arr(ref_glm('A ~ 1', frame).predict(frame)) if cfg['stab'] else np.ones(len(d))
+        a = arr(frame['A'])
+        return {'p': {}, 'w': {'iptw': arr(s.iptw)}, 'est': {'rd': float(s.risk_difference), 'rr': float(s.risk_ratio)},
+                'aux': {'d_ref': d, 'n_ref': n, 'a': a, 'obs': ~np.isnan(a), 'ref': {}}}
+    return play(bound, specify, finish)
 
 
 def run_crossfit(data, cfg, bound):
@@ -406,16 +522,21 @@ def run_crossfit(data, cfg, bound):
     from zepid.superlearner import GLMSL
     cls = getattr(dr, cfg['cls'])
     c = cls(data['full'], 'A', 'Y')
-    c.exposure_model(FORMULA_A, GLMSL(sm.families.family.Binomial()), bound=bound)
-    c.outcome_model(FORMULA_Y, GLMSL(sm.families.family.Binomial()))
-    with Spy() as spy:
-        c.fit(n_splits=2 if cfg['cls'].startswith('Single') else 3, n_partitions=2, random_state=11)
-    p = {}
-    for j, (pa1, pa0, a) in enumerate(spy.calls):
-        p['pa1_%d' % j] = pa1
-        p['pa0_%d' % j] = pa0
-    return {'p': p, 'w': {}, 'est': {'rd': float(c.risk_difference), 'rr': float(c.risk_ratio)},
-            'aux': {'ncalls': len(spy.calls)}}
+
+    def specify(b):
+        c.exposure_model(FORMULA_A, GLMSL(sm.families.family.Binomial()), bound=b)
+
+    def finish():
+        c.outcome_model(FORMULA_Y, GLMSL(sm.families.family.Binomial()))
+        with Spy() as spy:
+            c.fit(n_splits=2 if cfg['cls'].startswith('Single') else 3, n_partitions=2, random_state=11)
+        p = {}
+        for j, (pa1, pa0, a) in enumerate(spy.calls):
+            p['pa1_%d' % j] = pa1
+            p['pa0_%d' % j] = pa0
+        return {'p': p, 'w': {}, 'est': {'rd': float(c.risk_difference), 'rr': float(c.risk_ratio)},
+                'aux': {'ncalls': len(spy.calls), 'ref': {}}}
+    return play(bound, specify, finish)
 
 
 SITES = [
@@ -565,7 +686,7 @@ def estimator_case(chk, drv, site, runner, cfg, data, U, kind, bound, seed_note)
     except Exception as ex:                                     # noqa: BLE001  (an estimator that dies is a failure)
         chk.case(None, None)
         chk.d(False, '%s runs with bound=%s (raised %s: %s)' % (site, kind, type(ex).__name__, str(ex)[:120]), case)
-        return
+        return None
     nontriv = (nclipped > 0) == reach
     chk.case(None, (site, repr(sorted(cfg.items())), kind, seed_note['id']) if nontriv else None,
              sample=dict(case, data=seed_note['id'], estimates=B['est'], unbounded=U['est'])
@@ -573,7 +694,7 @@ def estimator_case(chk, drv, site, runner, cfg, data, U, kind, bound, seed_note)
     chk.count('%s|%s' % (site, kind))
     if not nontriv:
         chk.count('bound_kind_not_as_labelled')
-        return
+        return B
     # ---------------------------------------------------------------- D
     if not reach:
         for grp in ('p', 'w'):
@@ -681,32 +802,78 @@ def estimator_case(chk, drv, site, runner, cfg, data, U, kind, bound, seed_note)
                 bad.append(k)
         chk.k(ok and not bad, 'bw: model of %s vs implementation (%s)' % (site, ','.join(bad) or 'status'),
               {'case': case, 'model_status': rep.get('status'), 'mismatch': bad})
+    return B
+
+
+def nobound_case(chk, site, cfg, U, note):
+    """D: no bound requested => the fitted probabilities are used as they are (reference GLM fit made by the harness
+    with the documented formula on the estimator's own data frame; 1e-9 relative: the same IRLS on the same data)"""
+    ucase = {'site': site, 'cfg': cfg, 'data': note, 'bound_kind': 'none', 'bound': False}
+    for k, rv in U['aux'].get('ref', {}).items():
+        chk.case(None, (site, repr(sorted(cfg.items())), 'noboundref', k, note['id']))
+        if ((rv < 0.0005) | (rv > 0.9995)).any():
+            chk.count('unbounded_run_with_fitted_probability_beyond_0.0005')
+        chk.d(bool(np.allclose(U['p'][k], rv, rtol=1e-9, atol=0, equal_nan=True)),
+              'no bound requested: %s %s = fitted values of the reference GLM (no truncation)' % (site, k), ucase)
+
+
+def history_case(chk, site, runner, cfg, data, note, hist, want, what):
+    """run a history on ONE object and judge what it shows at the end against a FRESH object (`want`)"""
+    case = {'site': site, 'cfg': cfg, 'bound_kind': 'history', 'history': [list(b) if isinstance(b, tuple) else b
+                                                                           for b in hist.bounds],
+            'fit_between': hist.fit_between, 'data': note, 'compare_with': 'fresh object given the last specification'}
+    chk.case(None, (site, repr(sorted(cfg.items())), repr(hist), note['id']))
+    chk.count('history|%s' % site)
+    try:
+        H = runner(data, cfg, hist)
+    except Exception as ex:                                      # noqa: BLE001
+        chk.d(False, '%s history raised %s: %s' % (site, type(ex).__name__, str(ex)[:120]), case)
+        return
+    ok_arrays = all(same(H[g][k], want[g][k]) for g in ('p', 'w') for k in want[g])
+    ok_est = all(close(H['est'][k], want['est'][k], rtol=1e-12, atol=1e-14) for k in want['est'])
+    bad = [k for g in ('p', 'w') for k in want[g] if not same(H[g][k], want[g][k])] + \
+          [k for k in want['est'] if not close(H['est'][k], want['est'][k], rtol=1e-12, atol=1e-14)]
+    chk.d(ok_arrays and ok_est, '%s history: %s (differs in %s)' % (site, what, ','.join(bad) or '-'), case)
 
 
 def estimators(chk, drv, rng, tier):
     ndata = 6 if tier == 'quick' else 24
     ncf = 2 if tier == 'quick' else 6
+    ncf_done = 0
     for di in range(ndata):
-        data = gen_data(rng)
-        note = {'id': 'dataset #%d of this seed/tier (n=%d)' % (di, data['n']), 'frames': pack(data)}
+        # one data set in three has fitted risks beyond 0.0005 / 0.9995 (rare outcome, strong predictor)
+        data = gen_data(rng, extreme=(di % 3 == 1), index_kind=['default', 'shuffled', 'string'][(di + di // 3) % 3])
+        note = {'id': 'dataset #%d of this seed/tier (n=%d%s, %s index)'
+                      % (di, data['n'], ', extreme risks' if data['extreme'] else '', data['index_kind']),
+                'frames': pack(data)}
+        chk.count('dataset_%s_%s' % ('extreme' if data['extreme'] else 'ordinary', data['index_kind']))
         for site, runner, cells in SITES:
-            if site == 'crossfit' and di >= ncf:
-                continue
+            if site == 'crossfit':
+                # cross-fit only on ordinary data: on the extreme-risk data sets the outcome learner fitted on one small
+                # split separates perfectly, predicts exactly 0/1 and statsmodels refuses the infinite offset of the
+                # targeting step -- nothing to do with the exposure-model bound judged here
+                if data['extreme'] or ncf_done >= ncf:
+                    continue
+                ncf_done += 1 if cells and site == 'crossfit' else 0
             for cfg in cells:
                 try:
                     U = runner(data, cfg, False)
                 except Exception as ex:                          # noqa: BLE001
-                    import traceback
-                    frames = [f.name for f in traceback.extract_tb(ex.__traceback__)]
-                    if 'probability_bounds' in frames:
-                        # TMLE / StochasticTMLE always truncate (continuous_bound); a helper that cannot take the
-                        # estimator's own fitted values breaks every call
-                        chk.case(None, None)
-                        chk.d(False, '%s runs without a bound (probability_bounds raised %s: %s)'
-                              % (site, type(ex).__name__, str(ex)[:100]), {'site': site, 'cfg': cfg, 'data': note})
+                    # zEpid raised on valid data although no bound was requested.  Only a failure of the harness's own
+                    # reference nuisance fits (separation, non-convergence) excuses it
+                    try:
+                        for fm, fr in (('A ~ ' + FORMULA_A, data['full']), ('Y ~ ' + FORMULA_Y, data['full'].dropna())):
+                            ref_glm(fm, fr)
+                        excused = False
+                    except Exception:                            # noqa: BLE001
+                        excused = True
+                    if excused:
+                        chk.discard('reference GLM fit failed on this data set')
                     else:
-                        chk.discard('unbounded reference run failed outside probability_bounds: %s %s'
-                                    % (site, type(ex).__name__))
+                        chk.case(None, None)
+                        chk.d(False, '%s runs without a bound (raised %s: %s)'
+                              % (site, type(ex).__name__, str(ex)[:100]), {'site': site, 'cfg': cfg, 'data': note,
+                                                                           'bound_kind': 'none', 'bound': False})
                     continue
                 # ---- H: the harness's reference nuisance fit is reproduced by the unbounded run
                 chk.h_checked += 1
@@ -714,15 +881,24 @@ def estimators(chk, drv, rng, tier):
                     obs = U['aux']['obs']
                     href = np.allclose(U['w']['ipmw'][obs], U['aux']['n_ref'][obs] / U['aux']['d_ref'][obs], rtol=1e-10)
                     chk.k(bool(href), 'nuisance layer: %s weights = reference GLM fit' % site, {'site': site, 'cfg': cfg})
-                if 'pred_ref' in U['aux'] and 'den' in U['p']:
-                    href = same(U['p']['den'], np.where(U['aux']['a'] == 1, U['aux']['pred_ref'], 1 - U['aux']['pred_ref']))
-                    chk.k(bool(href), 'nuisance layer: StochasticTMLE denominators = reference GLM fit',
-                          {'site': site, 'cfg': cfg})
+                nobound_case(chk, site, cfg, U, note)
                 bounds = choose_bounds(clipped_probs(site, cfg, U))
+                fresh = {}
                 for kind, bound in bounds.items():
                     if kind == 'reached_tuple' and tier == 'quick' and site != 'TMLE':
                         continue
-                    estimator_case(chk, drv, site, runner, cfg, data, U, kind, bound, note)
+                    fresh[kind] = estimator_case(chk, drv, site, runner, cfg, data, U, kind, bound, note)
+                # ---- histories on one object: the last specification is the one that counts
+                hk = 'reached_sym' if fresh.get('reached_sym') is not None else 'reached_asym'
+                if fresh.get(hk) is not None:
+                    bb = bounds[hk]
+                    history_case(chk, site, runner, cfg, data, note, Hist([bb, False], True), U,
+                                 'bound then no bound (fitted in between) = fresh run without bound')
+                    history_case(chk, site, runner, cfg, data, note, Hist([False, bb], False), fresh[hk],
+                                 'no bound then bound = fresh run with that bound')
+                    if tier == 'thorough' and 'unreached_asym' in bounds:
+                        history_case(chk, site, runner, cfg, data, note, Hist([bb, bounds['unreached_asym'], bb], True),
+                                     fresh[hk], 'bound, unreachable bound, bound again (fits in between) = fresh bounded run')
                 # a falsy bound (0.0) must behave as no bound at all
                 if site in ('IPTW.treatment_model', 'AIPTW') and cfg in cells[:1]:
                     Z = runner(data, cfg, 0.0)
@@ -794,14 +970,28 @@ def replay(rec):
             data = unpack(case['data']['frames'])
             site = case['site']
             runner = [r for n, r, _ in SITES if n == site][0]
-            bound = case['bound']
+            bound = case.get('bound')
             if case.get('bound_kind') == 'reached_tuple':
                 bound = tuple(bound)
             chk = common.Check('C17', 'replay', 0)
             with common.quiet():
-                U = runner(data, case['cfg'], False)
-                estimator_case(chk, None, site, runner, case['cfg'], data, U, case['bound_kind'], bound, case['data'])
-            print(site, case['cfg'], case['bound_kind'], 'bound =', bound, '| n =', data['n'])
+                try:
+                    U = runner(data, case['cfg'], False)
+                except Exception as ex:                          # noqa: BLE001
+                    print(site, case['cfg'], 'run without bound raises %s: %s' % (type(ex).__name__, ex))
+                    bad += 1
+                    continue
+                if case['bound_kind'] == 'history':
+                    hb = [tuple(b) if isinstance(b, list) and len(b) == 2 and False else b for b in case['history']]
+                    last = hb[-1]
+                    want = U if not last else runner(data, case['cfg'], last)
+                    history_case(chk, site, runner, case['cfg'], data, case['data'], Hist(hb, case['fit_between']), want,
+                                 'history = fresh object given the last specification')
+                elif case['bound_kind'] == 'none':
+                    nobound_case(chk, site, case['cfg'], U, case['data'])
+                else:
+                    estimator_case(chk, None, site, runner, case['cfg'], data, U, case['bound_kind'], bound, case['data'])
+            print(site, case['cfg'], case['bound_kind'], 'bound =', case.get('history', bound), '| n =', data['n'])
             print('   unbounded estimates:', U['est'])
             for g in chk.d_fail:
                 print('   FAILS:', g['what'])
